@@ -29,6 +29,31 @@ PR = 'prerequisite'
 
 
 def check(c):
+    # triggers that differ in any field are different triggers: config
+    # builds a Dependency from a *set* of TaskTriggers, so two atoms of one
+    # expression that compare equal collapse into one (`foo[^+P2] & foo[+P2]`)
+    # -- the identity used by __hash__ / __eq__ covers every field set by
+    # __init__
+    tt = c.idx.cls('TaskTrigger', 'task_trigger')
+    ini = tt.methods['__init__']
+    fields = {n.attr for n in c.idx.walk(ini.node) if isinstance(
+        n, ast.Attribute) and isinstance(n.ctx, ast.Store) and isinstance(
+        n.value, ast.Name) and n.value.id == 'self'}
+    c.floor('C13.trigger-identity', 'TaskTrigger fields', len(fields), 6)
+    for mname in ('__hash__', '__eq__'):
+        m = tt.methods.get(mname)
+        if m is None:
+            c.ob('C13.trigger-identity', f'TaskTrigger.{mname} defined', False,
+                 c.where(tt.node), '')
+            continue
+        used = {n.attr for n in c.idx.walk(m.node) if isinstance(
+            n, ast.Attribute) and isinstance(n.value, ast.Name)
+            and n.value.id == 'self'}
+        via_hash = bool(c.find(m, 'hash(self) == hash(other)'))
+        miss = set() if (mname == '__eq__' and via_hash) else fields - used
+        c.ob('C13.trigger-identity', f'{m.fq} :: covers every field',
+             not miss, c.where(m.node, m), f'not part of the identity: '
+             f'{sorted(miss)}' if miss else str(sorted(fields)))
     cls = c.idx.cls('Prerequisite', PR)
     direct = [s for s in c.stores(PR, '_satisfied')]
     allow = {
@@ -225,6 +250,15 @@ def check(c):
 
 
 VARIANTS = [
+    ('trigger-identity-ignores-icp-flag', 'cylc/flow/task_trigger.py',
+     '''            self.offset_is_irregular,
+            self.offset_is_from_icp,
+            self.offset_is_absolute,
+            self.initial_point,
+        ))''', '''            self.offset_is_irregular,
+            self.offset_is_absolute,
+            self.initial_point,
+        ))''', 'C13.trigger-identity'),
     ('satisfied-prereq-ignores-later-outputs', 'cylc/flow/prerequisite.py',
      '''        for output in outputs:
             output_tuple = PrereqTuple(''', '''        if self._cached_satisfied:
